@@ -100,7 +100,11 @@ func genC02(seed uint64, tier string) *plan.Plan {
 			op.F = []plan.Op{{K: "count", A: int64(1 + r.IntN(2)), B: int64(r.IntN(5))}}
 			pl.Ops = append(pl.Ops, op)
 		default:
-			if nT < 5 {
+			if nT < 5 && r.IntN(3) == 0 {
+				pl.Ops = append(pl.Ops, plan.Op{K: "lazytmpl", A: int64(nT), N: pickElems(r, 1+r.IntN(10), true), C: int64(r.Uint64() >> 1)})
+				sizes = append(sizes, 10)
+				nT++
+			} else if nT < 5 {
 				pl.Ops = append(pl.Ops, plan.Op{K: "tmpl", A: int64(nT), N: pickElems(r, 1+r.IntN(10), true)})
 				sizes = append(sizes, 10)
 				nT++
